@@ -286,6 +286,27 @@ Section PAEXACT.
   Qed.
 End PAEXACT.
 
+(* ---------- a Series request with several matchers (PlanSeries: one UNION ALL member per matcher, each reading the
+   fingerprints of ITS OWN selector statement since fix c94f1fe): the fingerprints read by the members together ---------- *)
+Definition prof_series_fps (re re_full : string -> string -> bool) (tbl : string) (from_ns to_ns : Z)
+    (scripts : list (list selector)) (rows : list pginrow) : list N :=
+  flat_map (fun sels => eval_prof_sel re (prof_selector_abs re_full tbl from_ns to_ns sels) rows) scripts.
+
+Theorem prof_series_union_exact (re_match re_full : string -> string -> bool) :
+  (forall v p, re_match v (anchor p) = re_full v p) ->
+  forall tbl from_ns to_ns scripts series fp, pdb_ok series ->
+    (forall sels, List.In sels scripts -> (List.length (snd (split_selectors (pos_sels re_full sels))) <= 63)%nat) ->
+    (List.In fp (prof_series_fps re_match re_full tbl from_ns to_ns scripts (pgin_of series)) <->
+     exists sels, List.In sels scripts /\
+                  List.In fp (prof_expected re_full (from_day from_ns) (to_ns / (86400 * 1000000000))%Z sels series)).
+Proof.
+  intros Hl tbl from_ns to_ns scripts series fp Hdb Hlen. unfold prof_series_fps. rewrite in_flat_map. split.
+  - intros [sels [Hin Hfp]]. exists sels. split; [assumption|].
+    now apply (prof_select_statement_exact re_match re_full Hl tbl from_ns to_ns sels series fp Hdb (Hlen sels Hin)).
+  - intros [sels [Hin Hfp]]. exists sels. split; [assumption|].
+    now apply (prof_select_statement_exact re_match re_full Hl tbl from_ns to_ns sels series fp Hdb (Hlen sels Hin)).
+Qed.
+
 (* the former refutation witness (one stored series without a region label, selector region != eu-west) is now selected *)
 Example prof_absent_label_selected :
   pdb_ok pw_series /\
